@@ -13,6 +13,19 @@ Op vocabulary (one case may hold several runs; `params` starts a fresh run):
                               how many bytes that op drained and how many bytes the real
                               consumer exposes now (`stable_prefix`)
   finish
+  zenc b|c <n>             (hcobs_enc)  right after `params`: ONE call on a piece of `n` zero bytes,
+                           then finish; ends the run
+  zdec b|c <n>             (hcobs_dec)  right after `params`: the encoding of `n` zero bytes, its
+                           first byte in one call, all the rest in a second call, then finish
+
+`zenc` / `zdec` take `n` up to more than 2^32 (a single piece / slice of >= 4 GiB is where a
+length narrowed to 32 bits shows), so they are not replayed on a `List UInt8` of `n` bytes:
+the observation is the *summary* of the encoding (`Zeros.Summary`: size, chunks, last chunk,
+FNV-1a of the header bytes) computed by arithmetic, `Zeros.zeroSummary`.  That this is the
+summary of what `Enc` produces (and that `Dec` turns the encoding back into `n` zeros) for
+EVERY `n` is `Zeros.zenc_output` / `Zeros.zdec_output` / `Zeros.summarize_encode_zeros`
+(`Woodpile/Proofs/HcobsZeros*.lean`); for `n ≤ zCheckMax` the driver also runs the state
+machines on the actual bytes and compares (`spec=1`).
 
 `enc`, `dec` and the drains produce their observation when the `seen` line
 arrives: slice boundaries are structural (Layer B), so the number of bytes a
@@ -29,6 +42,7 @@ equal `Spec.encode` (resp. `Spec.decode`) of the concatenated input.
 -/
 import Woodpile.Driver.Util
 import Woodpile.Model.Hcobs
+import Woodpile.Model.HcobsZeros
 import Woodpile.Gen.Consts
 
 namespace Woodpile.Driver.HcobsFam
@@ -55,6 +69,8 @@ structure St where
   dieAfter : Bool := false
   /-- everything fed so far in this run (for the comparison with `Spec`) -/
   input : List UInt8 := []
+  /-- no `enc` / `dec` / drain since `params` -/
+  fresh : Bool := true
 
 def prodParams : Params := ⟨Woodpile.Gen.maxInit, Woodpile.Gen.maxSub, Woodpile.Gen.radix⟩
 
@@ -99,6 +115,37 @@ def onSeen (s : St) (n rs : Nat) : St × List String :=
   ({ s with pipe := pipe', await := false, head := "", dieAfter := false,
             phase := if s.dieAfter then .done else s.phase }, [line])
 
+/-- Up to this size `zenc` / `zdec` also run the state machines on the actual zero bytes. -/
+def zCheckMax : Nat := 300000
+
+def fmtSummary (sm : Zeros.Summary) : String :=
+  "size=" ++ toString sm.size ++ " chunks=" ++ toString sm.chunks ++ " last=" ++ toString sm.last
+    ++ " hhash=" ++ toString sm.hhash.toNat
+
+/-- `zenc` on a fresh encoder run (`s.es`, `s.pipe` as `startRun` left them). -/
+def zencCheck (s : St) (m : Method) (n : Nat) : Bool :=
+  let d := Zeros.zeros n
+  let (es', nid', emits) := Enc.feedAll s.p s.es s.pipe.nextId m d
+  let pipe1 := runEmits s.pipe emits
+  let pipe' := runEmits pipe1 (Enc.finish s.p es')
+  decide (nid' = pipe1.nextId) && !pipe'.pending
+    && decide (pipe'.bytes = Spec.encode s.p d)
+    && decide (Zeros.summarize s.p pipe'.bytes = Zeros.zeroSummary s.p n)
+
+/-- `zdec` on a fresh decoder run. -/
+def zdecCheck (s : St) (m : Method) (n : Nat) : Bool :=
+  let wire := Spec.encode s.p (Zeros.zeros n)
+  decide (Zeros.summarize s.p wire = Zeros.zeroSummary s.p n) &&
+  match Dec.feedAll s.p m .initial (wire.take 1) with
+  | .error _ => false
+  | .ok (ds1, e1) =>
+    match Dec.feedAll s.p m ds1 (wire.drop 1) with
+    | .error _ => false
+    | .ok (ds2, e2) =>
+      match Dec.finish ds2 with
+      | .error _ => false
+      | .ok () => decide ((runEmits (runEmits Pipe.empty e1) e2).bytes = Zeros.zeros n)
+
 def step (s : St) (ws : List String) : St × List String :=
   match ws with
   | ["seen", n, rs] =>
@@ -124,7 +171,7 @@ def step (s : St) (ws : List String) : St × List String :=
       | some m, some d =>
         let (es', nid', emits) := Enc.feedAll s.p s.es s.pipe.nextId m d
         let pipe' := runEmits s.pipe emits
-        if nid' = pipe'.nextId then ({ s with es := es', pipe := pipe', await := true, input := s.input ++ d }, [])
+        if nid' = pipe'.nextId then ({ s with es := es', pipe := pipe', await := true, input := s.input ++ d, fresh := false }, [])
         else ({ s with phase := .done }, ["model-desync"])
       | _, _ => (s, ["bad-op"])
     else (s, ["bad-op"])
@@ -134,7 +181,7 @@ def step (s : St) (ws : List String) : St × List String :=
       | some m, some d =>
         match Dec.feedAll s.p m s.ds d with
         | .ok (ds', emits) =>
-          ({ s with ds := ds', pipe := runEmits s.pipe emits, await := true, head := "ok ", input := s.input ++ d }, [])
+          ({ s with ds := ds', pipe := runEmits s.pipe emits, await := true, head := "ok ", input := s.input ++ d, fresh := false }, [])
         | .error (e, emits) =>
           -- the batch definition must reject what the state machine rejected
           let agree := (Spec.decode s.p (s.input ++ d)).isNone
@@ -143,10 +190,29 @@ def step (s : St) (ws : List String) : St × List String :=
                     dieAfter := true, input := s.input ++ d }, [])
       | _, _ => (s, ["bad-op"])
     else (s, ["bad-op"])
+  | ["zenc", m, n] =>
+    if s.isEnc ∧ s.phase = .live ∧ s.fresh ∧ (m = "b" ∨ m = "c") then
+      match parseMethod m, n.toNat? with
+      | some m, some n =>
+        let agree := if n ≤ zCheckMax then zencCheck s m n else true
+        ({ s with phase := .done },
+          ["zenc " ++ fmtSummary (Zeros.zeroSummary s.p n) ++ " pending=0 spec=" ++ b01 agree])
+      | _, _ => (s, ["bad-op"])
+    else (s, ["bad-op"])
+  | ["zdec", m, n] =>
+    if !s.isEnc ∧ s.phase = .live ∧ s.fresh ∧ (m = "b" ∨ m = "c") then
+      match parseMethod m, n.toNat? with
+      | some m, some n =>
+        let agree := if n ≤ zCheckMax then zdecCheck s m n else true
+        ({ s with phase := .done },
+          ["zdec " ++ fmtSummary (Zeros.zeroSummary s.p n) ++ " verdict=ok out=" ++ toString n
+            ++ " zeros=1 spec=" ++ b01 agree])
+      | _, _ => (s, ["bad-op"])
+    else (s, ["bad-op"])
   | [op, k] =>
     if (op = "drain_slices" ∨ op = "drain_bytes" ∨ op = "drain_read") ∧ s.phase = .live then
       match k.toNat? with
-      | some _ => ({ s with await := true }, [])
+      | some _ => ({ s with await := true, fresh := false }, [])
       | none => (s, ["bad-op"])
     else (s, ["bad-op"])
   | ["finish"] =>
